@@ -487,9 +487,10 @@ Section WithEnv.
     match push_to_block2 p o c with
     | (ROk o1, c1) =>
       if a_close_obj p then
-        match r_state o1 with
-        | Receiving => let (o2, c2) := error o1 true c1 in (ROk o2, c2)
-        | _ => (ROk o1, c1)
+        (* without a writer the FDT has not been attached yet: the object may be complete in memory (D44) *)
+        match r_state o1, r_writer o1 with
+        | Receiving, Some _ => let (o2, c2) := error o1 true c1 in (ROk o2, c2)
+        | _, _ => (ROk o1, c1)
         end
       else (ROk o1, c1)
     | r => r
